@@ -20,20 +20,24 @@ from . import common
 from .common import Report
 
 
-def make_param(tag: str, shape: List[int], depth: int):
+def make_param(tag: str, shape: List[int], depth: int, frozen: bool = False):
+    """frozen: the parameter does not require a gradient when the groups are built
+    (a frozen backbone, unfrozen later). The property speaks of EVERY tagged
+    parameter, so the factor -- and the rejection of untagged ones -- is the same."""
     from unit_scaling.parameter import Parameter
 
     data = torch.zeros(*shape)
-    if tag == "":
-        return nn.Parameter(data)
-    return Parameter(data, tag, None if depth == 0 else depth)
+    p = nn.Parameter(data) if tag == "" else Parameter(data, tag, None if depth == 0 else depth)
+    if frozen:
+        p.requires_grad_(False)
+    return p
 
 
-def observe(case: Dict[str, Any], form: str, lrkind: str, via: str, lr_value: float) -> Dict[str, Any]:
+def observe(case: Dict[str, Any], form: str, lrkind: str, via: str, lr_value: float, frozen: bool = False) -> Dict[str, Any]:
     """Run the real code for one case. Returns {"err": name|None, "ratio2": float|None}."""
     from unit_scaling import optim as O
 
-    p = make_param(case["tag"], case["shape"], case["depth"])
+    p = make_param(case["tag"], case["shape"], case["depth"], frozen)
     lr: Any = None
     if case["lrGiven"]:
         lr = lr_value if lrkind == "float" else torch.tensor(lr_value, dtype=torch.float64 if lrkind == "tensor64" else torch.float32)
@@ -71,13 +75,13 @@ def observe(case: Dict[str, Any], form: str, lrkind: str, via: str, lr_value: fl
     return {"err": None, "ratio2": ratio * ratio, "same_kind": same_kind}
 
 
-def observe_multi(cases: List[Dict[str, Any]], lrkind: str, via: str, lr_value: float, form: str) -> Dict[str, Any]:
+def observe_multi(cases: List[Dict[str, Any]], lrkind: str, via: str, lr_value: float, form: str, frozen: Optional[List[bool]] = None) -> Dict[str, Any]:
     """Several parameters in ONE call sharing one learning rate (bare list,
     generator, or one explicit group): each must get its own factor."""
     from unit_scaling import optim as O
 
     c0 = cases[0]
-    ps = [make_param(c["tag"], c["shape"], c["depth"]) for c in cases]
+    ps = [make_param(c["tag"], c["shape"], c["depth"], bool(frozen and frozen[i])) for i, c in enumerate(cases)]
     lr: Any = lr_value if lrkind == "float" else torch.tensor(lr_value, dtype=torch.float64 if lrkind == "tensor64" else torch.float32)
     readout = None if c0["readout"] == "none" else c0["readout"]
     params: Any = ps if form == "list" else (q for q in ps) if form == "gen" else [dict(params=ps)]
@@ -147,16 +151,16 @@ def gating(case: Dict[str, Any]) -> bool:
 def replay_case(rep: Report, case: Dict[str, Any], exp: Dict[str, Any], rng: random.Random, all_forms: bool) -> None:
     if not gating(case):
         return
-    combos = [(f, k, v) for f in FORMS for k in ("float", "tensor", "tensor64") for v in ("scaled_parameters", "class")]
+    combos = [(f, k, v, z) for f in FORMS for k in ("float", "tensor", "tensor64") for v in ("scaled_parameters", "class") for z in (False, True)]
     if not all_forms:
-        combos = rng.sample(combos, 3)
-    for (form, lrkind, via) in combos:
+        combos = rng.sample([c for c in combos if not c[3]], 2) + rng.sample([c for c in combos if c[3]], 1)
+    for (form, lrkind, via, frozen) in combos:
         if via == "class" and not case["lrGiven"]:
             continue  # the classes always have an lr (default 1e-3)
         lr_value = 10 ** rng.uniform(-8, 2)
-        obs = observe(case, form, lrkind, via, lr_value)
+        obs = observe(case, form, lrkind, via, lr_value, frozen)
         tol = 1e-12 if lrkind != "tensor" else 5e-7
-        compare(rep, case, exp, obs, (form, lrkind, via), tol)
+        compare(rep, case, exp, obs, (form, lrkind, via, frozen), tol)
 
 
 def replay_multi(rep: Report, pool: List[Tuple[Dict[str, Any], Dict[str, Any]]], rng: random.Random, n: int) -> None:
@@ -179,8 +183,9 @@ def replay_multi(rep: Report, pool: List[Tuple[Dict[str, Any], Dict[str, Any]]],
         lrkind = rng.choice(["float", "tensor", "tensor64"])
         via = rng.choice(["scaled_parameters", "class"])
         form = rng.choice(["list", "gen", "one_group"])
-        obs = observe_multi([c for c, _ in sel], lrkind, via, 10 ** rng.uniform(-8, 2), form)
-        label = f"{k} {[ (c['tag'] or 'untagged', c['shape'], c['depth']) for c, _ in sel]} via={(form, lrkind, via)}"
+        frozen = [rng.random() < 0.3 for _ in sel]
+        obs = observe_multi([c for c, _ in sel], lrkind, via, 10 ** rng.uniform(-8, 2), form, frozen)
+        label = f"{k} {[ (c['tag'] or 'untagged', c['shape'], c['depth'], 'frozen' if z else 'trainable') for (c, _), z in zip(sel, frozen)]} via={(form, lrkind, via)}"
         rep.case(("multi", label))
         if obs.get("err") is not None or obs.get("bad"):
             rep.violation(f"multi-parameter call failed: {obs.get('err') or obs.get('bad')} for {label}", {"cases": [c for c, _ in sel], "how": (form, lrkind, via), "obs": obs}, key=f"multi_error:{k[0]}")
@@ -248,7 +253,8 @@ def run(rep: Report, tier: str) -> None:
     rep.traces = rep.evaluations
     rep.rule = (
         "cases = states of Optim_MC phase lr emitted by TLC (quick: 25% sample) + seeded large shapes evaluated point-wise by TLC; each replayed "
-        "through scaled_parameters and the optimizer classes with bare list / generator / explicit groups and float / float32-tensor / float64-tensor lr; "
+        "through scaled_parameters and the optimizer classes with bare list / generator / explicit groups, float / float32-tensor / float64-tensor lr, "
+        "and the parameter trainable or frozen (requires_grad False) when the groups are built; "
         "non-trivial = expected factor != 1 or an expected error"
     )
     for rec in emitted[:: max(1, len(emitted) // 3)][:3]:
@@ -264,9 +270,10 @@ def replay(rep: Report, path: str) -> None:
     ev = common.tlc_eval("Optim_Eval", "Optim_Eval.cfg", [case], tag="opteval")
     rep.states += ev["states"]
     rep.transitions += ev["transitions"]
-    form, lrkind, via = c["how"]
-    obs = observe(case, form, lrkind, via, 0.37)
-    compare(rep, case, ev["out"][0], obs, (form, lrkind, via), 1e-12 if lrkind != "tensor" else 5e-7)
+    form, lrkind, via = c["how"][:3]
+    frozen = bool(c["how"][3]) if len(c["how"]) > 3 else False
+    obs = observe(case, form, lrkind, via, 0.37, frozen)
+    compare(rep, case, ev["out"][0], obs, (form, lrkind, via, frozen), 1e-12 if lrkind != "tensor" else 5e-7)
     rep.case("replay")
     rep.case(json.dumps(case))
     rep.traces = 1
